@@ -234,3 +234,31 @@ Proof.
   - intros s Hs. apply sym_in_ctx. unfold problem_symbols. apply in_extend_all. right. exists a; auto.
 Qed.
 End Ctx.
+
+(* ---------- the parser-image premise survives the pipeline ---------- *)
+Lemma pipeline_formula_origin raw d pb : In pb (pipeline raw d) -> forall a, In a (pb_formulas pb) ->
+  exists conf b0, In b0 (pb_formulas raw) /\ pf_formula a = rcs_formula conf (pf_formula b0).
+Proof.
+  unfold pipeline. intros Hin a Ha.
+  pose proof (decompose_formulas _ _ _ Hin (pf_formula a) (in_map _ _ _ Ha)) as H.
+  cbn in H.
+  assert (U : forall l i, map pf_formula (unique_names_from i l) = map pf_formula l).
+  { induction l as [|x l IH]; intros i; cbn; [reflexivity|]. rewrite IH. reflexivity. }
+  rewrite U, map_map in H. cbn [pf_formula] in H. apply in_map_iff in H. destruct H as [b [E Hb]].
+  apply in_map_iff in Hb. destruct Hb as [b0 [<- Hb0]].
+  assert (N : pf_formula (normalize_pf b0) = pf_formula b0).
+  { unfold normalize_pf. destruct (String.eqb (pf_name b0) ""); [reflexivity|]. destruct (starts_with_underscore (pf_name b0)); reflexivity. }
+  rewrite N in E. eexists. exists b0. split; [exact Hb0|]. symmetry. exact E.
+Qed.
+Lemma rcs_cmps conf F : cmps_nonempty (rcs_formula conf F) = cmps_nonempty F.
+Proof.
+  induction F as [a|g IH|c l IHl r IHr|q vs g IH]; cbn [rcs_formula cmps_nonempty]; auto.
+  - destruct a as [| |p ts|t gs]; cbn; auto. rewrite map_length. reflexivity.
+  - rewrite IHl, IHr. reflexivity.
+Qed.
+Lemma pipeline_cmps raw d pb : (forall a, In a (pb_formulas raw) -> cmps_nonempty (pf_formula a) = true) ->
+  In pb (pipeline raw d) -> forall a, In a (pb_formulas pb) -> cmps_nonempty (pf_formula a) = true.
+Proof.
+  intros Hc Hin a Ha. destruct (pipeline_formula_origin raw d pb Hin a Ha) as (conf & b0 & Hb0 & ->).
+  rewrite rcs_cmps. apply Hc, Hb0.
+Qed.
